@@ -475,7 +475,7 @@ class RequireMatcher(WrappingMatcher):
 
     def skip_to_quality(self, minquality):
         skipped = self.a.skip_to_quality(minquality)
-        self.child._find_next()
+        self.child._find_first()
         return skipped
 
     def weight(self):
